@@ -2,12 +2,14 @@
 //@ end
 
 //@ fn crypto.rs hmac_sha256
+//@ params key value
 //@ props C08 C06 C01
 //@ ret r
 //@ spec
     ensures r@ == spec_hmac(key@, value@), //# C06 C01 name=key_then_value
 //@ end
 //@ fn crypto.rs sha256
+//@ params value
 //@ props C08 C01 C12
 //@ ret r
 //@ spec
@@ -16,6 +18,7 @@
 
 
 //@ fn crypto.rs sha256_hex
+//@ params value
 //@ props C08 C01 C12
 //@ ret r
 //@ spec
